@@ -97,6 +97,33 @@ def oracle(case, rec):
     want = sorted([k] + left + [k + 1 + v for v in right])
     rec.check(res == want, 'multi_knee:not-self-similar',
               'MK(p)=%r but k=%d, MK(left)=%r, MK(right)=%r -> %r (detector %s t1=%r t2=%d n=%d)' % (res, k, left, right, want, det, t1, t2, n))
+    # the same relation unfolded at EVERY depth: a reference recursion written from the statement,
+    # using only the detector's single-knee answer and the endpoint-line SMAPE of each range
+    if n <= 400:
+        ref, work, failed = [], [(0, n)], False
+        while work and not failed:
+            l, r = work.pop()
+            seg = p[l:r]
+            if len(seg) <= t2 or len(seg) <= 2:
+                continue
+            with np.errstate(all='ignore'):
+                if float(L.lf.smape_points(seg, L.lf.linear_fit_points(seg))) < t1:
+                    continue
+            kk = rec.call(bound, mod.knee, seg, _site=det + '.knee')
+            if kk is FAILED:
+                failed = True
+            elif kk is not None:
+                kk = int(kk)
+                if not (lo <= kk <= len(seg) - 2):
+                    rec.fail('knee:out-of-range-on-a-sub-range', (kk, len(seg)))
+                    failed = True
+                else:
+                    ref.append(l + kk)
+                    work.append((l, l + kk + 1))
+                    work.append((l + kk + 1, r))
+        if not failed:
+            rec.check(res == sorted(ref), 'multi_knee:differs-from-recursive-reference',
+                      'MK(p)=%r reference=%r (detector %s t1=%r t2=%d n=%d)' % (res[:30], sorted(ref)[:30], det, t1, t2, n))
     rec.nontrivial = len(res) >= 2
     rec.tag('knees:%s' % ('1' if len(res) == 1 else '2-4' if len(res) <= 4 else '5+'))
 
